@@ -16,6 +16,7 @@ const (
 	sigError     = 3
 	sigLookahead = 4
 	sigPartition = 5
+	sigInput     = 6
 )
 
 func computeRuleClasses(t *Tables, g *Grammar) []int {
@@ -61,6 +62,11 @@ func partitionStatesByAction(t *Tables, ruleClass []int, numStates int) ([]int, 
 	// Signature of a state:
 	//    Action[s], plus LALR entries substituting rule -> ruleClass
 	stateSignature := func(s int) []int {
+		if s < len(t.FinalStates) {
+			// Entry states are addressed by their input index (see parseEntryFuncs in the templates),
+			// so they have to keep their numbers: give each of them a partition of its own.
+			return []int{sigInput, s}
+		}
 		act := t.Action[s]
 		if act >= 0 {
 			return []int{sigReduce, ruleClass[act]}
